@@ -143,6 +143,20 @@ Proof.
   destruct (ascii_dec "d" c) as [<-|N]; [reflexivity|discriminate H].
 Qed.
 
+Lemma find_char_lt : forall c s stop k, find_char c s stop = Some k -> k < stop.
+Proof.
+  intros c s. induction s as [|x r IH]; intros stop k H; destruct stop as [|n]; cbn [find_char] in H; try discriminate H.
+  destruct (Ascii.eqb x c); [injection H as <-; lia|].
+  destruct (find_char c r n) as [k'|] eqn:E; [|discriminate H]. injection H as <-. apply IH in E. lia.
+Qed.
+
+Lemma ascii_prefix_le : forall s k k', k' <= k -> ascii_prefix s k = true -> ascii_prefix s k' = true.
+Proof.
+  induction s as [|c r IH]; intros k k' L H; destruct k' as [|k']; try reflexivity.
+  destruct k as [|k]; [lia|]. cbn [ascii_prefix] in *. apply andb_true_iff in H. destruct H as [H1 H2].
+  rewrite H1. cbn [andb]. apply (IH k k'); [lia|exact H2].
+Qed.
+
 Lemma ltb_of_nat : forall a b, (Z.of_nat a <? Z.of_nat b)%Z = Nat.ltb a b.
 Proof. intros a b. destruct (Nat.ltb a b) eqn:E. apply Nat.ltb_lt in E. apply Z.ltb_lt. lia. apply Nat.ltb_ge in E. apply Z.ltb_ge. lia. Qed.
 
@@ -574,10 +588,12 @@ Proof.
   destruct (prefix "d" t) eqn:P; [rewrite (match_d_true _ t _ _ P)|rewrite (match_d_false _ t _ _ P); reflexivity].
   cbn [negb bind py_find one_char]. unfold find_from0.
   destruct (find_char ":" t (String.length t)) as [ic|] eqn:Fc; [|reflexivity].
+  destruct (ascii_prefix t ic) eqn:Ap; cbn [negb]; [|reflexivity].
   cbn [bind py_lt int_op2 as_int]. change 4%Z with (Z.of_nat 4). rewrite ltb_of_nat. cbn [py_truth bind].
   destruct (Nat.ltb ic 4) eqn:L4; [reflexivity|]. cbn [bind py_find3 one_char].
   replace (Z.of_nat ic <? 0)%Z with false by (symmetry; apply Z.ltb_ge; lia). rewrite Nat2Z.id. unfold find_from0.
   destruct (find_char "m" t ic) as [im|] eqn:Fm; [|reflexivity].
+  rewrite (ascii_prefix_le t ic im (Nat.lt_le_incl _ _ (find_char_lt _ _ _ _ Fm)) Ap).
   cbn [bind py_lt int_op2 as_int]. change 2%Z with (Z.of_nat 2). rewrite ltb_of_nat. cbn [py_truth bind].
   destruct (Nat.ltb im 2) eqn:L2; [reflexivity|]. cbn [bind].
   change 1%Z with (Z.of_nat 1). rewrite py_slice_str. cbn [bind py_add int_op2 as_int].
